@@ -436,6 +436,7 @@ pub fn run(tier: Tier) -> i32 {
     let samples: Mutex<Vec<serde_json::Value>> = Mutex::new(vec![]);
     let scratch = crate::report::Scratch::new("c08");
     let n_inc = AtomicU64::new(0);
+    let n_two_files = AtomicU64::new(0);
     let traces = mc::conform(&m, &ex, k, |trace| {
       for density in 0..4u8 {
         let r = m.render_density(trace, density);
@@ -513,6 +514,43 @@ pub fn run(tier: Tier) -> i32 {
                 });
             }
         }
+        if !was_bad && density == 0 && !trace.is_empty() && trace.len() <= if tier.thorough() { 6 } else { 4 } && !trace.contains(&Act::Exit) {
+            // two files of one program that both begin with a conditional structure (the same
+            // line numbers, other extents): a second included file holds a decoy that assembles
+            // nothing, read before or after the file with the structure
+            let (a, b) = r.cut;
+            let dir = scratch.path.join(format!("u{}", rayon::current_thread_index().unwrap_or(0)));
+            let _ = std::fs::create_dir_all(&dir);
+            let inc = &r.program[a..b];
+            let decoys = [".if 0\n junk one\n.endif\n", ".if 0\n junk one\n junk two\n junk three\n.if 1\n junk four\n.endif\n junk five\n.endif\n", ".ifdef never_defined_q\n junk one\n junk two\n.else\n.if 0\n junk three\n junk four\n junk five\n junk six\n.endif\n.endif\n"];
+            // (quick tier: one decoy and one order per trace, rotating; thorough: all six)
+            let turn = format!("{:?}", trace).bytes().fold(0usize, |h, b| h.wrapping_mul(31).wrapping_add(b as usize));
+            for (di, decoy) in decoys.iter().enumerate() {
+                for decoy_first in [true, false] {
+                    if !tier.thorough() && (di * 2 + decoy_first as usize) != turn % 6 {
+                        continue;
+                    }
+                    let main = if decoy_first { format!(".include \"decoy.inc\"\n{}.include \"cond.inc\"\n{}", &r.program[..a], &r.program[b..]) } else { format!("{}.include \"cond.inc\"\n.include \"decoy.inc\"\n{}", &r.program[..a], &r.program[b..]) };
+                    std::fs::write(dir.join("main.asm"), &main).unwrap_or_else(|e| machinery_fail(&format!("cannot write scratch file: {}", e)));
+                    std::fs::write(dir.join("cond.inc"), inc).unwrap_or_else(|e| machinery_fail(&format!("cannot write scratch file: {}", e)));
+                    std::fs::write(dir.join("decoy.inc"), decoy).unwrap_or_else(|e| machinery_fail(&format!("cannot write scratch file: {}", e)));
+                    let o4 = sut::build_file(dir.join("main.asm"), BTreeSet::new());
+                    n_two_files.fetch_add(1, Ordering::Relaxed);
+                    let same = match (&o1, &o4) {
+                        (Outcome::Ok(b1), Outcome::Ok(b4)) => b1.code == b4.code && markers_of(&b1.messages) == markers_of(&b4.messages) && b4.eeprom.is_empty() && b4.ram_filling == 0,
+                        _ => false,
+                    };
+                    if !same {
+                        let feats = r.features.iter().cloned().collect::<Vec<_>>().join("+");
+                        let key = format!("C08/differs-with-a-second-conditional-file/decoy={}/decoy-first={}/features={}", di, decoy_first, if feats.is_empty() { "plain".to_string() } else { feats });
+                        rep.violation(&key, || format!("trace {:?}: the conditional structure gives {} in the main text but {} when it is read from an included file next to another included file that begins with a conditional of its own (which assembles nothing)", trace, o1.brief(), o4.brief()), || {
+                            json!({"kind": "file_tree", "files": {"main.asm": main, "cond.inc": inc, "decoy.inc": decoy}, "main": "main.asm", "caller_paths": [], "pasted_program": r.program,
+                                   "expected": {"result": "ok", "code": sut::hex(&r.code), "message_markers": r.markers}, "observed": o4.to_json()})
+                        });
+                    }
+                }
+            }
+        }
         if !was_bad && trace.len() >= 5 {
             let mut s = samples.lock().unwrap();
             if s.len() < 2 {
@@ -541,6 +579,7 @@ pub fn run(tier: Tier) -> i32 {
         "renderings_per_trace": 4,
         "programs_built": traces * 4,
         "renderings_read_from_an_included_file": n_inc.load(Ordering::Relaxed),
+        "renderings_next_to_a_second_file_that_begins_with_a_conditional": n_two_files.load(Ordering::Relaxed),
         "state_cover_size": ex.states,
         "bound": {"N1_model_depth": n1, "k_extension": k, "nesting": nest},
         "exhaustive": true,
